@@ -611,6 +611,10 @@ func c14CallErr(e string) error {
 // other() produces one event of the other side.
 func c14DriveReader(s *c14Scn, b *c14Body, rd io.ReadCloser, inner *c14Inner, other func() error, rnd *rand.Rand, problems *[]string) {
 	pos := 0
+	var shared []byte
+	if rnd.IntN(2) == 0 && len(b.stream) <= 1<<16 {
+		shared = make([]byte, len(b.stream)+72)
+	}
 	for ci, c := range s.Calls {
 		switch c.Op {
 		case "r":
@@ -621,12 +625,22 @@ func c14DriveReader(s *c14Scn, b *c14Body, rd io.ReadCloser, inner *c14Inner, ot
 			if len(buf) == 0 {
 				buf = make([]byte, 1)
 			}
+			if shared != nil {
+				// the way io.Copy, bufio and proxies read: one buffer, refilled from its start, with room to spare
+				buf = shared[:min(len(shared), kb+1+rnd.IntN(64))]
+			}
 			from := inner.pos
 			n, err := rd.Read(buf)
 			if n != kb || err != want { //nolint:errorlint
 				*problems = append(*problems, fmt.Sprintf("call %d: Read returned (%d, %v), wrapped reader returned (%d, %v)", ci, n, err, kb, want))
 			} else if !bytes.Equal(buf[:n], b.stream[from:from+kb]) {
 				*problems = append(*problems, fmt.Sprintf("call %d: Read delivered other bytes than the wrapped reader", ci))
+			}
+			if shared != nil {
+				// after Read has returned the buffer is the caller's again
+				for i := range shared {
+					shared[i] = 0xEE
+				}
 			}
 			pos += c.K
 		case "c":
@@ -822,6 +836,10 @@ func c14RunHandler(s *c14Scn, b *c14Body, hv http.Header, name string, seed uint
 			}
 			pos := 0
 			ended := false
+			var wshared []byte
+			if rnd.IntN(2) == 0 && len(b.stream) <= 1<<16 {
+				wshared = make([]byte, 0, len(b.stream)+72)
+			}
 			for ci, c := range s.Calls {
 				switch c.Op {
 				case "r":
@@ -853,7 +871,16 @@ func c14RunHandler(s *c14Scn, b *c14Body, hv http.Header, name string, seed uint
 					if len(data) == 0 && c.E != "err" {
 						continue
 					}
+					if wshared != nil {
+						// a writer that fills one scratch buffer again and again (bufio, io.Copy)
+						data = append(wshared[:0], data...)
+					}
 					n, err := w.Write(data)
+					if wshared != nil {
+						for i := range wshared[:cap(wshared)] {
+							wshared[:cap(wshared)][i] = 0xEE // after Write has returned the buffer is the caller's again
+						}
+					}
 					out.app.Writes = append(out.app.Writes, c14WriteRec{Len: len(data), N: n, Err: fmt.Sprint(err)})
 					if n != kb || err != want { //nolint:errorlint
 						out.problems = append(out.problems, fmt.Sprintf("call %d: Write returned (%d, %v), wrapped writer returned (%d, %v)", ci, n, err, kb, want))
